@@ -32,6 +32,42 @@ pub enum Case {
     /// all 256 colour values in one file
     Colors,
     E57 { program: Program, damage: Vec<Damage> },
+    /// e57-check-crc on a directory of files; `damaged`: which of them carry a damaged page
+    Dir { programs: Vec<Program>, damaged: Vec<bool> },
+}
+
+fn run_dir(programs: &[Program], damaged: &[bool], v: &mut Verdict) -> Result<(), String> {
+    let sc = Scratch::new().map_err(|e| format!("infra: {e}"))?;
+    let dir = sc.0.join("files");
+    std::fs::create_dir_all(&dir).map_err(|e| format!("infra: {e}"))?;
+    let mut all_valid = true;
+    let mut n = 0;
+    for (i, p) in programs.iter().enumerate() {
+        let dev = MemDev::new();
+        let h = dev.handle();
+        let mut tr = Trace::default();
+        if guard(|| prog::exec(p, dev, &mut tr)).is_err() || tr.error.is_some() || !tr.finalized {
+            continue;
+        }
+        let mut bytes = h.bytes();
+        if damaged.get(i).copied().unwrap_or(false) {
+            bytes = crate::c17::damaged(&bytes, &[Damage::Unsealed { page: 1, byte: 77, bit: 3 }]);
+        }
+        if !e57ref::pages::page_verdicts(&bytes).iter().all(|x| *x) {
+            all_valid = false;
+        }
+        std::fs::write(dir.join(format!("f{i}.e57")), &bytes).map_err(|e| format!("infra: {e}"))?;
+        n += 1;
+    }
+    if n == 0 {
+        return Ok(());
+    }
+    v.nt("directory_of_files");
+    let o = Command::new(tool("e57-check-crc")).arg(&dir).output().map_err(|e| format!("infra: cannot run e57-check-crc: {e}"))?;
+    if o.status.success() != all_valid {
+        return Err(format!("e57-check-crc on a directory of {n} files exits with {:?} although {}", o.status.code(), if all_valid { "every page checksum is valid" } else { "one of the files has an invalid page checksum" }));
+    }
+    Ok(())
 }
 
 static COUNTER: AtomicU64 = AtomicU64::new(0);
@@ -239,7 +275,7 @@ impl Check for C20 {
          (one enumerated file holds all 256 values in every channel), extra columns, short lines, LF or CRLF, single-space separated; converted by \
          e57-from-xyz then e57-to-xyz (real processes): same number of lines as input lines with >= 6 columns, in order, each coordinate parses to \
          an f64 equal to the input f32, colours equal. E57 files from the writer generator, intact and with damaged pages: e57-check-crc exits 0 \
-         iff every page is valid by e57ref; e57-extract-xml stdout = E57Reader::raw_xml = e57ref's XML bytes; e57-unpack: metadata.xml = XML, each \
+         iff every page is valid by e57ref (single files and directories of 2..4 files); e57-extract-xml stdout = E57Reader::raw_xml = e57ref's XML bytes; e57-unpack: metadata.xml = XML, each \
          CSV row = Display of the raw values, each image file = the blob bytes. Non-trivial: XYZ file with > 1 packet of points or a special \
          float, E57 file with a damaged page, several clouds or images."
             .into()
@@ -269,6 +305,12 @@ impl Check for C20 {
         Some("one file with all 256 values in each colour channel; one file with 9000 points (more than one data packet)".into())
     }
     fn gen(s: &mut Src, _t: Tier) -> Case {
+        if s.chance(1, 10) {
+            let k = 2 + s.below(3) as usize;
+            let programs = (0..k).map(|_| small_program(s)).collect();
+            let damaged = (0..k).map(|_| s.chance(1, 3)).collect();
+            return Case::Dir { programs, damaged };
+        }
         if s.chance(3, 5) {
             let n = match s.weighted(&[1, 4, 2]) {
                 0 => 0,
@@ -278,7 +320,11 @@ impl Check for C20 {
             let lines = (0..n)
                 .map(|_| Line {
                     xyz: [f32_text(s), f32_text(s), f32_text(s)],
-                    rgb: [s.byte(), s.byte(), *s.pick(&[0u8, 1, 127, 128, 254, 255])],
+                    rgb: if s.chance(1, 3) {
+                        [*s.pick(&[0u8, 1, 2, 254, 255]), *s.pick(&[0u8, 1, 2, 254, 255]), *s.pick(&[0u8, 1])]
+                    } else {
+                        [s.byte(), s.byte(), *s.pick(&[0u8, 1, 127, 128, 254, 255])]
+                    },
                     extra: (0..s.weighted(&[4, 1, 1])).map(|_| gen::ext_name(s)).collect(),
                     keep: if s.chance(1, 8) { s.below(6) as u8 } else { 9 },
                 })
@@ -305,6 +351,7 @@ impl Check for C20 {
                 }
                 run_xyz(lines, *crlf, &mut v)
             }
+            Case::Dir { programs, damaged } => run_dir(programs, damaged, &mut v),
             Case::E57 { program, damage } => {
                 if program.ops.iter().filter(|o| matches!(o, Op::Cloud(_))).count() >= 2 {
                     v.label("program_with_several_clouds");
